@@ -101,7 +101,10 @@ EhTables == {NoEh,
              Eh(<<>>, [c_m32601 |-> <<"replace", "identity">>, c_m32000 |-> <<"identity", "identity">>, c_2001 |-> <<"identity">>]),
              Eh(<<"identity">>, [c_m32601 |-> <<"identity">>, c_m32602 |-> <<"replace">>, i1 |-> <<"identity">>]),
              Eh(<<"replace">>, [c_m32601 |-> <<"identity">>, c_2001 |-> <<"identity", "identity">>, i1 |-> <<"identity">>, c_m32000 |-> <<"replace">>]),
-             Eh(<<"replace", "identity">>, [c_2001 |-> <<"replace">>, c_m32602 |-> <<"identity">>])}
+             Eh(<<"replace", "identity">>, [c_2001 |-> <<"replace">>, c_m32602 |-> <<"identity">>]),
+             \* a generic handler that rewrites the error IN PLACE: the per-code handlers are still those of the RAISED code
+             Eh(<<"mutate">>, [c_m32601 |-> <<"identity">>, c_2001 |-> <<"identity", "identity">>, i1 |-> <<"identity">>, c_m32000 |-> <<"mutate">>]),
+             Eh(<<"identity", "mutate">>, [c_2001 |-> <<"replace">>, c_m32602 |-> <<"identity">>])}
 EhTablesSmall == {NoEh, Eh(<<"replace">>, [c_m32601 |-> <<"identity">>, c_2001 |-> <<"identity">>])}
 C12Texts == {Single(RD("s_v20", "i1", "m_ok", "o_a")), Single(RD("s_v20", "i1", "m_unk", Absent)),
              Single(RD("s_v20", "s_1", "m_one", Absent)), Single(RD("s_v20", "i0", "m_perr", Absent)),
